@@ -6,7 +6,7 @@ branch c13, over the constants regenerated into `NV.Gen.C13`.  Quantification is
 buffer state satisfying the stated invariant (which the initial state satisfies and every step preserves), every
 byte stream and every way of cutting it into reads.
 -/
-import NV.C13.Lemmas11
+import NV.C13.Lemmas16
 
 namespace NV.C13
 
@@ -18,6 +18,14 @@ theorem ts_layout :
     tsDATA ≤ tsStateMask ∧ tsIAC ≤ tsStateMask ∧ tsWILL ≤ tsStateMask ∧ tsWONT ≤ tsStateMask ∧ tsDO ≤ tsStateMask ∧
     tsDONT ≤ tsStateMask ∧ tsSB ≤ tsStateMask ∧ tsSBIAC ≤ tsStateMask ∧ tsCrSeen &&& tsStateMask = 0 ∧
     [tsDATA, tsIAC, tsWILL, tsWONT, tsDO, tsDONT, tsSB, tsSBIAC].Nodup := by decide
+
+/-- **tie of the statement order**: the order of the statements of the PORT_ASCII line loop (`text_start` committed and
+    the LF overwritten *before* process_input runs; re-validation, reset test, advance, move of the rest after it), of
+    add_console_line's checks and of the telnet store, as read from the source text on every run, is the order the
+    model implements.  A reordering in the C code changes `NV.Gen.C13` and breaks this obligation. -/
+theorem statement_order_tie :
+    asciiLoopOrder = asciiLoopOrderModel ∧ consoleCheckOrder = consoleCheckOrderModel ∧
+    telnetStoreOrder = telnetStoreOrderModel := by decide
 
 /-- **sb_in_bounds** (array size): the sub-negotiation buffer has room for SB_SIZE data bytes *and* the terminator
     that IAC SE stores at `sb_buf[sb_pos]`.  False before commit "fix: telnet sub-negotiation terminator ..."
@@ -196,7 +204,7 @@ theorem framing_never_crashes (o : Oracle) (p : Port) (ops : List AnyOp) :
     | send b =>
       exact ih _ acc ⟨h.textLen, h.se, h.eMax, h.dec⟩ hs ha
     | read =>
-      obtain ⟨s', evs, h1, h2, h3⟩ := getUserData_ok' o h
+      obtain ⟨s', evs, h1, h2, h3, _, _⟩ := getUserData_ok' o h
       have : anyStep o s .read = .ok (s', none) := by simp [anyStep, h1, Except.map]
       simp only [anyRun, this]; exact ih _ acc h2 (by rw [h3]; exact hs) ha
     | line b =>
@@ -217,6 +225,31 @@ theorem framing_never_crashes (o : Oracle) (p : Port) (ops : List AnyOp) :
         · have : x = l := by simpa using hx
           subst this; exact h4 x rfl
 
+/-- **SINGLE_CHAR extraction is memory safe.**  For every state with the buffer invariant and a NUL at or behind
+    `text_end` inside the array — both are established by new_interactive and re-established by every function of the
+    framing code (`getUserData_N`, `addConsoleLine_N`, this theorem) — get_user_command, in line mode *or* in
+    single-character mode (where first_cmd_in_buf returns `text + text_start` without looking for a terminator),
+    reads its C string inside `text[]`, writes at most MAX_TEXT bytes to its static buffer, and keeps both. -/
+theorem single_char_extraction_safe (s : S) (h : Inv s) (hn : NulAfter s) :
+    ∃ s' r, getUserCommand s = .ok (s', r) ∧ Inv s' ∧ NulAfter s' ∧ ∀ l, r = some l → l.length + 1 ≤ MAXT :=
+  let ⟨s', r, h1, h2, h3, _, _, h6⟩ := getUserCommand_N h hn
+  ⟨s', r, h1, h2, h3, h6⟩
+
+/-- non-vacuity: fresh connections; and the hypothesis is about the NUL the code stores, not about a cleared array:
+    a buffer full of 0xA5 except `text[0]` satisfies it -/
+example (p : Port) : Inv (S.init p) ∧ NulAfter (S.init p) := ⟨init_inv p, nulAfter_init p⟩
+example : NulAfter { S.init .telnet with text := 0 :: List.replicate 5 0xA5 } := ⟨0, Nat.le_refl _, by decide, rfl⟩
+
+/-- **the model run of the case language never reaches a crash outcome** — every port, every oracle (errors,
+    destructs), every schedule of sends / reads / extractions / drain and finish loops / console lines, with
+    single-character mode switched on at any point: `run` never takes a `crash` branch (out-of-bounds access,
+    size wrap-around, C string running off `text[]`), the explicit index check after each step never fires, and
+    the final state satisfies the invariant.  This is the judge's `crash` and `index` clauses on model traces. -/
+theorem run_never_crashes (p : Port) (o : Oracle) (ops : List Op) (hw : WellFormed p ops) :
+    (run p o ops).dead = false ∧ Inv (run p o ops).s :=
+  let k := run_rinv p o ops hw
+  ⟨k.alive, k.inv⟩
+
 /-! ### the end-to-end clause: delivered command lines = `lines stream`, for every schedule -/
 
 /-- every schedule of client sends, read events and extractions runs to the end (line mode, every port) -/
@@ -231,7 +264,7 @@ theorem fRun_never_crashes (o : Oracle) (p : Port) (ops : List FOp) : ∃ f, fRu
       simp only [fRun, fStep]
       exact ih _ ⟨h.textLen, h.se, h.eMax, h.dec⟩ hs
     | read =>
-      obtain ⟨s', evs, h1, h2, h3⟩ := getUserData_ok' o h
+      obtain ⟨s', evs, h1, h2, h3, _, _⟩ := getUserData_ok' o h
       simp only [fRun, fStep, h1]
       exact ih _ h2 (by rw [h3]; exact hs)
     | extract =>
@@ -307,6 +340,30 @@ example : (fRun (fun k => if k = 0 then .err else .ok) { s := S.init .ascii }
       [.send [111, 110, 101, 10, 116, 119, 111, 10, 116, 104, 114], .read, .send [101, 101, 10], .read]).toOption.map
     (fun f => (f.clean, f.aborted, f.delivered, f.s.sock)) =
     some (true, false, [[111, 110, 101], [116, 119, 111], [116, 104, 114, 101, 101]], []) := by
+  set_option maxRecDepth 1000000 in decide
+
+/-- **console_lines_delivered** — the console end to end.  For any schedule of console blobs (whatever the console
+    worker read at once: several lines, half a line, CR LF split over two blobs) and extractions on a fresh console
+    user, such that every blob fitted behind `text_end` and the buffer was never full at an extraction (`clean`):
+    the lines delivered so far followed by the commands still complete in the buffer are `consoleLines accepted`
+    (pieces ended by LF, CR or NUL, empty ones skipped, edited) — independent of how the input was cut into blobs —
+    and after an extraction that returned nothing everything has been delivered. -/
+theorem console_lines_delivered (ops : List COp) (f : CF) (h : cRun { s := S.init .console } ops = .ok f)
+    (hc : f.clean = true) :
+    f.delivered ++ cmdsOf [] (pend f.s) = consoleLines f.accepted ∧
+    (f.lastNone = true → f.delivered = consoleLines f.accepted) := by
+  have k := consoleK_run ops _ f (fun _ => consoleK_init) h hc
+  have h0 := k.cmds []
+  simp only [List.append_nil] at h0
+  rw [← consoleLines_eq_cmdsOf] at h0
+  refine ⟨h0, fun hn => ?_⟩
+  rw [k.drained hn, List.append_nil] at h0
+  exact h0
+
+/-- non-vacuity: "lo", "ok\nsa", "y\r\n" in three blobs, extraction in between -/
+example : (cRun { s := S.init .console } [.line [108, 111], .line [111, 107, 10, 115, 97], .extract,
+      .line [121, 13, 10], .extract, .extract]).toOption.map (fun f => (f.clean, f.delivered, f.lastNone)) =
+    some (true, [[108, 111, 111, 107], [115, 97, 121]], true) := by
   set_option maxRecDepth 1000000 in decide
 
 end NV.C13
